@@ -12,5 +12,11 @@ def handleIterSeg (toks : List String) : Option String :=
       let ls : List Lit := (List.range (l.length / 3)).map fun i => ⟨l.getD (3 * i) 0, l.getD (3 * i + 1) 0, l.getD (3 * i + 2) 0⟩
       let ps := splitWs e0.toNat! e1.toNat! 0 ls
       some (if ps.isEmpty then "~" else ";".intercalate (ps.map fun p => s!"{p.t0},{p.t1},{p.s0},{p.s1},{p.r1 - p.r0}"))
+  | ["iterseg.span", e0, e1, lits] =>
+      let l := natList lits
+      let ls : List Lit := (List.range (l.length / 3)).map fun i => ⟨l.getD (3 * i) 0, l.getD (3 * i + 1) 0, l.getD (3 * i + 2) 0⟩
+      match spanSrc e0.toNat! e1.toNat! none ls with
+      | some (a, b) => some s!"{a},{b}"
+      | none => some "none"
   | _ => none
 end SqlfluffVerif.Driver
